@@ -30,6 +30,43 @@ def _read(rel):
     return open(os.path.join(bootstrap.REPO, rel)).read()
 
 
+_ALIASES: dict = {}
+
+
+def _collect_aliases(tree: ast.Module) -> dict:
+    """module-level names bound exactly once to an expression (`_CONV = hugr.std.int.CONVERSIONS_EXTENSION`), and imported names
+    (`from hugr.std.int import CONVERSIONS_EXTENSION [as X]`, `import hugr.std.int as hi`) -> dotted source text"""
+    seen, out = {}, {}
+    for node in tree.body:
+        if isinstance(node, ast.Assign) and len(node.targets) == 1 and isinstance(node.targets[0], ast.Name):
+            seen.setdefault(node.targets[0].id, []).append(node.value)
+        elif isinstance(node, ast.AnnAssign) and isinstance(node.target, ast.Name) and node.value is not None:
+            seen.setdefault(node.target.id, []).append(node.value)
+        elif isinstance(node, ast.ImportFrom) and node.module:
+            for a in node.names:
+                out[a.asname or a.name] = f"{node.module}.{a.name}"
+        elif isinstance(node, ast.Import):
+            for a in node.names:
+                if a.asname:
+                    out[a.asname] = a.name
+    for k, vs in seen.items():
+        if len(vs) == 1:
+            out[k] = vs[0]
+    return out
+
+
+def _resolve(node: ast.AST, depth: int = 0) -> str:
+    """dotted text of an expression with module-level aliases expanded"""
+    if depth > 6:
+        return ast.unparse(node)
+    if isinstance(node, ast.Name) and node.id in _ALIASES:
+        v = _ALIASES[node.id]
+        return v if isinstance(v, str) else _resolve(v, depth + 1)
+    if isinstance(node, ast.Attribute):
+        return _resolve(node.value, depth + 1) + "." + node.attr
+    return ast.unparse(node)
+
+
 def _opspec(call: ast.AST):
     """`int_op("iadd")`, `int_op("convert_u", hugr.std.int.CONVERSIONS_EXTENSION)`, `float_op("fadd")`,
     `bool_logic_op("and")`, `unsupported_op("trunc_s")`, `external_op("name", args=[], ext=...)` -> (ext, op)"""
@@ -47,7 +84,7 @@ def _opspec(call: ast.AST):
         if kw.arg == "ext":
             ext_node = kw.value
     if ext_node is not None:
-        ext = EXT_EXPR.get(ast.unparse(ext_node), "unknown:" + ast.unparse(ext_node))
+        ext = EXT_EXPR.get(_resolve(ext_node), "unknown:" + ast.unparse(ext_node))
     if fn == "external_op" and ext is None:
         ext = "unknown"
     if ext is None:
@@ -163,6 +200,8 @@ def rows(files=None):
     out = []
     for i, rel in enumerate((NUM, BOOL)):
         tree = ast.parse(open(files[i]).read() if files else _read(rel))
+        _ALIASES.clear()
+        _ALIASES.update(_collect_aliases(tree))
         for node in tree.body:
             if isinstance(node, ast.ClassDef) and any(
                 isinstance(d, ast.Call) and isinstance(d.func, ast.Name) and d.func.id == "extend_type" for d in node.decorator_list
@@ -179,7 +218,92 @@ def rows(files=None):
                             "pnames": [a.arg for a in node.args.args],
                             "ret": _ann(node.returns), "impl": _impl(node)})
     out.sort(key=lambda r: (r["type"], r["name"]))
+    if files is None:
+        _overlay_objects(out)
     return out
+
+
+# ---------------------------------------------------------------- implementation from the imported definition objects
+LAST_OVERLAY = {"from_objects": 0, "ast_only": 0, "ast_disagrees": []}
+
+
+def _op_of_callable(op):
+    """(ext, op) of the callable returned by int_op/float_op/external_op/bool_logic_op/unsupported_op, read from its closure"""
+    qn = getattr(op, "__qualname__", "")
+    cells = dict(zip(op.__code__.co_freevars, (c.cell_contents for c in (op.__closure__ or ()))))
+    if "op_def" in cells:
+        d = cells["op_def"]
+        ext = getattr(getattr(d, "_extension", None), "name", None)
+        return (ext or "unknown", d.name)
+    if qn.startswith("unsupported_op"):
+        return ("unsupported", cells.get("op_name", "?"))
+    if qn.startswith("bool_logic_op"):
+        return ("tket.bool", cells.get("op_name", "?"))
+    return None
+
+
+def _impl_from_object(defn, name):
+    """impl descriptor of a RawCustomFunctionDef from its compiler / checker objects; None = not derivable (keep the AST's)"""
+    import types as _t
+    chk, comp = getattr(defn, "call_checker", None), getattr(defn, "call_compiler", None)
+    ck, cc = type(chk).__name__, type(comp).__name__
+    if ck == "ReversingChecker":
+        try:
+            probe = type(chk).__new__(type(chk))
+            probe.func = _t.SimpleNamespace(name=name)
+            return {"kind": "reversed", "target": probe.parse_name()}
+        except BaseException:  # noqa: BLE001
+            return {"kind": "reversed", "target": "?"}
+    if ck == "DunderChecker":
+        return {"kind": "dunder", "name": chk.dunder_name, "nargs": chk.num_args}
+    if ck not in ("DefaultCallChecker", "NoneType"):
+        return {"kind": "checker", "name": ck}
+    if cc == "NoopCompiler":
+        return {"kind": "noop"}
+    if cc in ("OpCompiler", "BoolOpCompiler", "UnwrapOpCompiler") and callable(getattr(comp, "op", None)):
+        r = _op_of_callable(comp.op)
+        if r is None:
+            return None
+        if r[0] == "unsupported":
+            return {"kind": "unsupported", "op": r[1]}
+        return {"kind": {"OpCompiler": "hugr", "BoolOpCompiler": "boolop", "UnwrapOpCompiler": "unwrapop"}[cc], "ext": r[0], "op": r[1]}
+    return None
+
+
+def _overlay_objects(rows_):
+    """Prefer what the *imported definition objects* of the tree under test say (compiler / checker objects attached to each custom
+    function) over the decorator AST; the AST stays authoritative for @guppy-bodied dunders, signatures and as a fallback."""
+    LAST_OVERLAY.update({"from_objects": 0, "ast_only": 0, "ast_disagrees": []})
+    try:
+        import guppylang.std.num as num_mod  # noqa: F401  (registers the definitions)
+        import guppylang.std.bool  # noqa: F401
+        from guppylang_internals.engine import DEF_STORE
+        from guppylang_internals.tys import builtin as tb
+        tdefs = {"nat": tb.nat_type_def, "int": tb.int_type_def, "float": tb.float_type_def, "bool": tb.bool_type_def}
+    except BaseException:  # noqa: BLE001
+        LAST_OVERLAY["ast_only"] = len(rows_)
+        return
+    for r in rows_:
+        if r["impl"]["kind"] == "body":
+            LAST_OVERLAY["ast_only"] += 1
+            continue
+        try:
+            if r["type"] == "<builtin>":
+                defn = DEF_STORE.raw_defs[getattr(num_mod, r["name"]).id]
+            else:
+                impls = DEF_STORE.impls[tdefs[r["type"]].id]
+                did = impls.get(r["name"]) or impls.get(f"_{r['type']}{r['name']}")
+                defn = DEF_STORE.raw_defs[did]
+            obj = _impl_from_object(defn, r["name"])
+        except BaseException:  # noqa: BLE001
+            obj = None
+        if obj is None:
+            LAST_OVERLAY["ast_only"] += 1
+            continue
+        if impl_str(obj) != impl_str(r["impl"]):
+            LAST_OVERLAY["ast_disagrees"].append(f"{r['type']}.{r['name']}: AST {impl_str(r['impl'])} / objects {impl_str(obj)}")
+        r["impl"] = obj
+        LAST_OVERLAY["from_objects"] += 1
 
 
 def impl_str(impl) -> str:
@@ -250,6 +374,14 @@ def kind_order():
                             if r and isinstance(r[0].value, ast.Compare) and len(r[0].value.ops) == 1:
                                 c = r[0].value
                                 lt = (_CMPNAME.get(type(c.ops[0]), "?"), ast.unparse(c.left), ast.unparse(c.comparators[0]))
+    # prefer the imported enum of the tree under test for the member values (robust against how they are written)
+    try:
+        from guppylang_internals.tys.ty import NumericType
+        obj = [(m.name, int(m.value)) for m in NumericType.Kind]
+        if obj:
+            members = obj
+    except BaseException:  # noqa: BLE001
+        pass
     return members, lt
 
 
